@@ -26,8 +26,8 @@ pub open spec fn %(spec)s_fn<'a>() -> spec_fn(&'a [u8]) -> IResult<&'a [u8], %(r
 pub proof fn axiom_nongrowing_%(spec)s<'a>(i: &'a [u8]) ensures %(spec)s(i) is Ok ==> %(spec)s(i)->Ok_0.0@.len() <= i@.len() {}
 // ASSUMED: %(spec)s IS the function %(fn)s computes (definition of the uninterpreted %(spec)s)
 #[verifier::external_body]
-pub proof fn axiom_fun_of_%(fn)s<'a>() ensures fun_of(%(fn)s) == %(spec)s_fn() {}
-pub proof fn lemma_is_fun_%(fn)s<'a>()
+proof fn axiom_fun_of_%(fn)s<'a>() ensures fun_of(%(fn)s) == %(spec)s_fn() {}
+proof fn lemma_is_fun_%(fn)s<'a>()
     ensures is_fun(%(fn)s), fun_of(%(fn)s) == %(spec)s_fn(),
 {
     axiom_fun_of_%(fn)s();
